@@ -13,8 +13,12 @@ EXTENDS HappyLock, Json, IOUtils
 
 Rec == ndJsonDeserialize(IOEnv.TRACE)
 
-ScenLines == SelectSeq(Rec, LAMBDA r : r.e = "scen")
-TVScenTab == [i \in 1..Len(ScenLines) |-> Derive(ScenLines[i].scen)]
+IsScen(r) == r.e = "scen"
+\* NB: a definition used as a CONSTANT override is re-evaluated by TLC on every
+\* use; only the indirection TVScenTab == TVScenTab0 makes the table a cached value.
+TVScenTab0 == LET sl == SelectSeq(Rec, IsScen) IN [i \in 1..Len(sl) |-> Derive(sl[i].scen)]
+
+TVScenTab == TVScenTab0
 
 VARIABLES ti,       \* next line of Rec
           xi,       \* index of the current execution (number of hdr lines seen)
@@ -22,14 +26,18 @@ VARIABLES ti,       \* next line of Rec
           exp,      \* events the model expects next (rest of the current step)
           found,    \* violations found so far: [p, s, x, ln]
           drifts,   \* first non-conforming line per execution: [x, ln]
-          okx       \* executions that conformed to the end
+          okx,      \* executions that conformed to the end
+          hits      \* per property: [ev |-> rule evaluations, ex |-> executions with at least one, cur |-> hit in this execution]
 
-tvars == <<vars, ti, xi, conform, exp, found, drifts, okx>>
+tvars == <<vars, ti, xi, conform, exp, found, drifts, okx, hits>>
+
+Props == {"C01", "C02", "C03", "C04", "C05", "C06", "C08", "C09", "C10", "C11", "C12", "C13", "C16", "C17"}
 
 TInit ==
   /\ sid = 0 /\ hw = <<>> /\ hr = <<>> /\ th = <<>> /\ kf = <<>> /\ val = <<>>
   /\ mon = [viol |-> {}] /\ hist = <<>> /\ last = <<>>
   /\ ti = 1 /\ xi = 0 /\ conform = FALSE /\ exp = <<>> /\ found = {} /\ drifts = {} /\ okx = 0
+  /\ hits = [p \in Props |-> [ev |-> 0, ex |-> 0, cur |-> FALSE]]
 
 ResetTo(s) ==
   LET d == D(s) IN
@@ -57,15 +65,20 @@ TNext ==
   /\ ti' = ti + 1
   /\ UNCHANGED <<hist, last>>
   /\ LET ev == Rec[ti] IN
-     IF ev.e = "scen" THEN UNCHANGED <<Model, mon, xi, conform, exp, found, drifts, okx>>
+     IF ev.e = "scen" THEN UNCHANGED <<Model, mon, xi, conform, exp, found, drifts, okx, hits>>
      ELSE IF ev.e = "hdr"
      THEN /\ ResetTo(ev.sn)
           /\ xi' = xi + 1 /\ conform' = TRUE /\ exp' = <<>>
           /\ UNCHANGED <<found, drifts, okx>>
+          /\ hits' = [p \in Props |-> [hits[p] EXCEPT !.cur = FALSE]]
      ELSE
        LET d  == D(sid)
            m1 == MonStep(mon, ev) IN
        /\ mon' = m1
+       /\ LET h == RuleHits(mon, ev) IN
+          hits' = [p \in Props |-> IF p \in h
+                     THEN [ev |-> hits[p].ev + 1, ex |-> IF hits[p].cur THEN hits[p].ex ELSE hits[p].ex + 1, cur |-> TRUE]
+                     ELSE hits[p]]
        /\ found' = found \cup {[p |-> v.p, s |-> v.s, x |-> xi, ln |-> ti] : v \in (m1.viol \ mon.viol)}
        /\ xi' = xi
        /\ IF ~conform \/ ev.e \in InfoEvents THEN UNCHANGED <<Model, conform, exp, drifts>>
@@ -92,6 +105,7 @@ Report ==
   ti = Len(Rec) + 1 =>
     /\ \A v \in found : PrintT(<<"VIOL", v.p, v.s, v.x, v.ln>>)
     /\ \A v \in drifts : PrintT(<<"DRIFT", v.x, v.ln>>)
+    /\ \A p \in Props : PrintT(<<"HITS", p, hits[p].ev, hits[p].ex>>)
     /\ PrintT(<<"STATS", Len(Rec), xi, okx>>)
 
 Consumed == TLCGet("stats").diameter = Len(Rec) + 1
